@@ -59,6 +59,7 @@ type CheckRun struct {
 	explanation string
 	bounds   map[string]interface{}
 	replayBudget int
+	witnessed    int
 	groupKey     func(v Violation) string
 }
 
@@ -111,6 +112,15 @@ func (cr *CheckRun) absorb(jobs []Job, res []*JobResult) {
 				cr.note("inconclusive path in " + j.Fn + " " + j.Tag + ": " + strings.Join(p.Notes, "; "))
 			}
 			for _, a := range p.Asserts {
+				if a.Label == "witness" || strings.HasPrefix(a.Label, "witness:") {
+					// reachability twin: must come back violated, otherwise the harness is vacuous
+					if a.Verdict == "failed" {
+						cr.witnessed++
+					} else {
+						cr.note("vacuity: reachability witness not violated (" + a.Verdict + ") in " + j.Fn + " " + j.Tag)
+					}
+					continue
+				}
 				if !cr.owner(a.Label) {
 					continue
 				}
@@ -300,6 +310,7 @@ func (cr *CheckRun) writeEvidence(violations int, knownMatched map[string]int) {
 		"samples":                       cr.samples,
 		"traces_validated_against_impl": cr.validated,
 		"known_findings_matched":        knownMatched,
+		"vacuity_twins_violated":        cr.witnessed,
 		"inconclusive":                  cr.inconcl,
 		"exhaustive":                    cr.exhaustive && len(cr.inconcl) == 0,
 		"explanation":                   cr.explanation,
